@@ -6,6 +6,7 @@ import FluteModel.PathMap
     path run  <root> <destform> <loc-hex> <ans> <outcome>      the writer as it is now (`PathMap.open`)
     path sess <root> <destform> <loc-hex> <ans> <outcome>      the same (the harness delivers it through a FLUTE session)
     path run0 <root> <destform> <loc-hex> <ans> <outcome>      the writer before the repair of D9 (`PathMap.openV0`)
+    path seq  <root> <destform> <tok,tok,...>                  a history: several writers of one builder, calls in any order
 
   <root>      absolute path of the sandbox (plain ASCII, no space); the sandbox layout is fixed (see `initFs`)
   <destform>  abs | slash | dots | rel | reldot      how `dest` is spelled (and the working directory)
@@ -112,6 +113,77 @@ def runOp (v0 : Bool) (rootS form locH ansS ocS : String) : String :=
     else "ERR " ++ showDiff root d1
   | _, _, _, _ => "bad-op"
 
+/-! ### histories: `path seq <root> <destform> <tok,tok,...>`
+      tok = n=<loc-hex>=<ans>   new_object_writer (writers are numbered 0,1,.. in order of creation)
+          | <i>o | <i>w | <i>c | <i>e | <i>i    open / write(empty slice) / complete / error / interrupted on writer i
+    answer: one item per token joined by ';' :  n  |  ok[<diff>] / ERR[<diff>] for open  |  -[<diff>] otherwise,
+    <diff> = what that call changed in the tree.  No file ever gets content in a history (writes are empty), so a
+    truncation is visible (`~f`) only for a file of the initial tree that was not truncated or removed before:
+    `nonEmpty` tracks those. -/
+
+def initNonEmpty (root : RPath) : List RPath :=
+  let d (xs : List String) : RPath := root ++ xs.map strBytes
+  [d ["top.txt"], d ["outer", "canary.txt"], d ["outer", "sub", "deep.txt"], d ["dest", "old.txt"], d ["dest", "sub", "in.txt"]]
+
+/-- diff entries of one call and the new set of non-empty files -/
+def stepDiff (root : RPath) (ne : List RPath) : List Effect → List String → List RPath × List String
+  | [], acc => (ne, acc)
+  | e :: r, acc =>
+    match e with
+    | .mkdir p => stepDiff root ne r (("+d:" ++ showPath root p) :: acc)
+    | .create p => stepDiff root ne r (("+f:" ++ showPath root p) :: acc)
+    | .truncate p =>
+      if ne.contains p then stepDiff root (ne.filter (· ≠ p)) r (("~f:" ++ showPath root p) :: acc)
+      else stepDiff root ne r acc
+    | .remove p => stepDiff root (ne.filter (· ≠ p)) r (("-f:" ++ showPath root p) :: acc)
+
+def showEntries (es : List String) : String :=
+  let sorted := es.foldr insertSorted []
+  if sorted.isEmpty then "-" else " ".intercalate sorted
+
+def parseCall : Char → Option Call
+  | 'o' => some .open
+  | 'w' => some .write
+  | 'c' => some .complete
+  | 'e' => some .error
+  | 'i' => some .interrupted
+  | _ => none
+
+def seqRun (root cwd : RPath) (dest : Str) : Sys → List RPath → List String → List String → String
+  | _, _, [], acc => ";".intercalate acc.reverse
+  | s, ne, tok :: rest, acc =>
+    if tok.startsWith "n=" then
+      match (tok.drop 2).toString.splitOn "=" with
+      | [locH, ansS] =>
+        match unhex locH, parseAns ansS with
+        | some loc, some ans => seqRun root cwd dest (hstep cwd dest s (.new loc ans)).1 ne rest ("n" :: acc)
+        | _, _ => "bad-op"
+      | _ => "bad-op"
+    else
+      match tok.toList.reverse with
+      | cch :: idxRev =>
+        match parseCall cch, (String.ofList idxRev.reverse).toNat? with
+        | some c, some i =>
+          match s.writers[i]? with
+          | none => "bad-op"
+          | some w =>
+            let r := callWriter s.fs cwd dest w c
+            let (ne', es) := stepDiff root ne r.2.2.1 []
+            let tag := if c = .open then (if r.2.2.2 then "ok" else "ERR") else "-"
+            seqRun root cwd dest ⟨r.1, s.writers.set i r.2.1⟩ ne' rest ((tag ++ "[" ++ showEntries es ++ "]") :: acc)
+        | _, _ => "bad-op"
+      | [] => "bad-op"
+
+def seqOp (rootS form toks : String) : String :=
+  if ¬ okRoot rootS then "bad-op" else
+  let root := segsOf rootS
+  match destOf rootS root form with
+  | some (cwd, dest) =>
+    let fs := initFs root
+    if ¬ builderNew fs cwd dest then "BUILDER-ERR" else
+    seqRun root cwd dest ⟨fs, []⟩ (initNonEmpty root) (toks.splitOn ",") []
+  | none => "bad-op"
+
 /-- which model `run` stands for: the code as it is in /repo now -/
 def currentIsV0 : Bool := false
 
@@ -120,6 +192,7 @@ def step (args : List String) : String :=
   | ["run", root, form, loc, ans, oc] => runOp currentIsV0 root form loc ans oc
   | ["sess", root, form, loc, ans, oc] => runOp currentIsV0 root form loc ans oc
   | ["run0", root, form, loc, ans, oc] => runOp true root form loc ans oc
+  | ["seq", root, form, toks] => seqOp root form toks
   | _ => "bad-op"
 
 end Flute.Drv.Path
